@@ -404,9 +404,14 @@ def unmodelled (what : String) : Prog Int := do
 /-- `m_map_iterate` over the context's module table: slots in order; a negative callback result
 stops with it, a positive one stops with 0; if the callback removed the current entry the slot is
 examined again; if the number of entries changed otherwise the iteration stops with -EACCES.
-The slot list carries, after each slot, two "repeat" occurrences that are only used when the C code
-would run the entry again (so the recursion stays structural; more than two re-runs of one slot in a
-single pass are outside the model). -/
+The slot list carries, after each slot, three "repeat" occurrences that are only used when the C code
+would run the entry again (so the recursion stays structural; more than three re-runs of one slot in a
+single pass are outside the model: `UNMODELLED`). -/
+def canRepeat (rest : List (Nat × Bool)) (i : Nat) : Bool :=
+  match rest with
+  | (j, true) :: _ => j == i
+  | _ => false
+
 def iterSlots (f : ModId → Prog Int) : (slots : List (Nat × Bool)) → (again : Option Nat) → Prog Int
   | [], _ => pure 0
   | (i, isRepeat) :: rest, again => do
@@ -422,12 +427,16 @@ def iterSlots (f : ModId → Prog Int) : (slots : List (Nat × Bool)) → (again
         else if rc > 0 then pure 0
         else do
           let s' ← getSt
-          if s'.modAtSlot i != some m then iterSlots f rest (some i)
+          if s'.modAtSlot i != some m then
+            -- (the slot holds another module now and the list has no further occurrence of it: out of the model's scope)
+            if (s'.modAtSlot i).isSome && !canRepeat rest i then
+              unmodelled "a module-table walk ran one slot more often than the model provides for"
+            else iterSlots f rest (some i)
           else if s'.tableLen != n then pure EACCES
           else iterSlots f rest none
 
 def slotList (s : St) : List (Nat × Bool) :=
-  s.scanOrder.flatMap fun i => [(i, false), (i, true), (i, true)]
+  s.scanOrder.flatMap fun i => [(i, false), (i, true), (i, true), (i, true)]
 
 /-- `m_iterate(c->modules, fn, NULL)`; `m_map_iterate` refuses an empty map -/
 def iterMods (f : ModId → Prog Int) : Prog Int := do
